@@ -576,7 +576,8 @@ func refWithinTolerance(e, a *big.Rat, addS, mulS string, scale *big.Int, dir in
 			mn = x
 		}
 		if mn.Sign() == 0 {
-			return false
+			// relative error against zero is undefined; an image that equals the target exactly meets every tolerance
+			return diff.Sign() == 0
 		}
 		// the code compares the half-even 18/36-decimal quotient; allow one unit of that rounding
 		q := new(big.Rat).Quo(diff, mn)
